@@ -6,7 +6,8 @@ from concurrent.futures import ThreadPoolExecutor
 from .. import lib
 from ..lib import cz, cb, cl, ce, coq_bytes, coq_z
 
-IMPORTS = "Model.Types Model.Varint Model.Scalar Model.Sweep gen.Tables"
+IMPORTS = "Model.Types Model.Varint Model.Scalar Model.Sweep Model.Float Model.Object Model.Encode Model.Decode Model.Canon gen.Tables"
+EXTRA_TARGETS = ["Model/Canon.vo", "Model/Decode.vo"]
 
 TRUSTED = [
     "Coq 8.16.1 kernel and vm_compute (no native_compute); full .vo build via coq_makefile",
@@ -48,6 +49,13 @@ def res(f, conv):
         return conv(f())
     except Exception as e:  # noqa
         return ce(lib.exc_kind(e))
+
+
+def res_any(f, conv):
+    try:
+        return conv(f())
+    except Exception:  # noqa
+        return ce("EOther")
 
 
 def run(ctx):
@@ -114,6 +122,27 @@ def run(ctx):
             add(f"match pack_fmt {ct} with Some f => cres CZ (unpack_int f {coq_bytes(bs)}) | None => CN end",
                 res(lambda: bp.Message._postprocess_single(None, wt, FM(1, t), "f", bs), cz), (f"unpack {t}", bs.hex()))
             ctx.seen_nontrivial(("unpack", t, bs))
+
+    # float / double packing and unpacking at the primitive level (bit patterns; -0.0, NaN, inf, subnormals, float32 rounding)
+    fvals = [0.0, -0.0, 1.0, -1.5, 0.1, 1e300, 5e-324, float("inf"), float("-inf"), float("nan"), 3.4028234663852886e38,
+             3.4028235677973366e38, 1e39, -1e39, 2.0 ** -149, 2.0 ** -150, 1.5 * 2.0 ** -149, 2.0 ** -126, 16777217.0, 1e-50]
+    fvals += [struct.unpack("<d", struct.pack("<Q", rng.getrandbits(64)))[0] for _ in range(150 if not ctx.thorough else 3000)]
+    fvals += [struct.unpack("<f", struct.pack("<I", rng.getrandbits(32)))[0] for _ in range(150 if not ctx.thorough else 3000)]
+
+    def bits(x):
+        return struct.unpack("<Q", struct.pack("<d", x))[0]
+    for v in fvals:
+        for t, ct in (("double", "TDouble"), ("float", "TFloat")):
+            add(f"cv_bytes_res (pack_value {ct} (PFloat ({bits(v)})))", res_any(lambda: bp._preprocess_single(t, "", v), cb), (f"pack {t}", repr(v)))
+            ctx.seen_nontrivial(("fpack", t, bits(v)))
+    for _ in range(150 if not ctx.thorough else 3000):
+        for t, ct, n, wt in (("double", "TDouble", 8, 1), ("float", "TFloat", 4, 5)):
+            bs = bytes(rng.getrandbits(8) for _ in range(n))
+            if rng.random() < 0.2:
+                bs = rng.choice([b"\x00" * (n - 1) + b"\x80", b"\x00" * n, b"\xff" * n, b"\x00" * (n - 2) + (b"\xf0\x7f" if n == 8 else b"\x80\x7f")])
+            add(f"cv_pv_res (unpack_value {ct} {coq_bytes(bs)})",
+                res_any(lambda: bp.Message._postprocess_single(None, wt, FM(1, t), "f", bs), lambda x: f"(cv_of_pv (PFloat ({bits(x)})))"),
+                (f"unpack {t}", bs.hex()))
 
     # decoder inputs
     streams = set()
@@ -395,15 +424,39 @@ def t3(ctx, ints, rng):
             mine = bytes(S(**{f"f_{k}": v}))
             ref = Ref(**{f"f_{k}": v}).SerializeToString()
             n += 1
-            if mine != ref and not (k in ("float", "double") and v == 0 and str(v) == "-0.0"):
-                ctx.fail("oracle", f"{k} value {v!r}: betterproto bytes {mine.hex()} != reference {ref.hex()}", input=[k, repr(v)])
-                break
+            if mine != ref:
+                negzero = k in ("float", "double") and v == 0 and str(v) == "-0.0"
+                ctx.fail("oracle", f"{k} value {v!r}: betterproto bytes {mine.hex()} != reference {ref.hex()}",
+                         cls="neg-zero-skipped" if negzero and mine == b"" else None, input=[k, repr(v)])
+                if not negzero:
+                    break
             if v:
                 ctx.seen_nontrivial(("t3", k, repr(v)))
+    # repeated (packed) float/double incl. -0.0 elements: element encodings byte-identical to the reference
+    from typing import List
+    fdp2 = descriptor_pb2.FileDescriptorProto(name=f"c16r_{ctx.seed}.proto", package="c16r", syntax="proto3")
+    m2 = fdp2.message_type.add(name="R")
+    m2.field.add(name="rf", number=1, type=T.TYPE_FLOAT, label=T.LABEL_REPEATED)
+    m2.field.add(name="rd", number=2, type=T.TYPE_DOUBLE, label=T.LABEL_REPEATED)
+    pool.Add(fdp2)
+    RefR = message_factory.GetMessageClass(pool.FindMessageTypeByName("c16r.R"))
+    R = dataclasses.make_dataclass("R", [("rf", List[float], bp.float_field(1)), ("rd", List[float], bp.double_field(2))],
+                                   bases=(bp.Message,), eq=False, repr=False)
+    f32s = [struct.unpack("<f", struct.pack("<f", f))[0] for f in floats if abs(f) < 3.5e38 or f in (float("inf"), float("-inf"))]
+    for _ in range(60):
+        rf = [rng.choice(f32s + [-0.0, 0.0]) for _ in range(rng.randint(1, 4))]
+        rd = [rng.choice(floats + [-0.0, 0.0]) for _ in range(rng.randint(1, 4))]
+        mine = bytes(R(rf=rf, rd=rd))
+        ref = RefR(rf=rf, rd=rd).SerializeToString()
+        n += 1
+        if mine != ref:
+            ctx.fail("oracle", f"repeated float/double {rf!r} {rd!r}: betterproto bytes {mine.hex()} != reference {ref.hex()}",
+                     input=["repeated", repr(rf), repr(rd)])
+            break
     ctx.count("t3_single_field_messages", n)
     ctx.cov["evaluations"] += n
-    ctx.notes.append("T3: -0.0 in a float/double field is skipped by betterproto (== default) and emitted by the reference; "
-                     "excluded here, it belongs to C02/C06's presence clauses")
+    ctx.notes.append("T3: a singular float/double field holding -0.0 is skipped by betterproto (== default) and emitted by the reference: "
+                     "known finding K14 (class neg-zero-skipped); inside packed repeated fields -0.0 must be (and is) byte-identical")
 
 
 def finish(ctx):
